@@ -1,12 +1,12 @@
 package main
 
 import (
-	"time"
 	"encoding/binary"
 	"fmt"
 	"net"
 	"reflect"
 	"strings"
+	"time"
 
 	"github.com/IBM/sarama"
 	"google.golang.org/protobuf/proto"
@@ -82,6 +82,10 @@ type c19field struct {
 func c19fields(v6 bool, schema int) []c19field {
 	A, R := registry.AntreaEnterpriseID, registry.IANAReversedEnterpriseID
 	f := []c19field{{"flowStartSeconds", 0}, {"flowEndSeconds", 0}}
+	if !v6 {
+		// an element the proto schemas have no field for: first in the IPv4 layout, last in the IPv6 one
+		f = append([]c19field{{"ingressInterface", 0}}, f...)
+	}
 	if v6 {
 		f = append(f, c19field{"sourceIPv6Address", 0}, c19field{"destinationIPv6Address", 0})
 	} else {
@@ -102,10 +106,13 @@ func c19fields(v6 bool, schema int) []c19field {
 	if schema == 2 {
 		f = append(f, c19field{"flowEndReason", 0}, c19field{"tcpState", A})
 	}
+	if v6 {
+		f = append(f, c19field{"egressInterface", 0})
+	}
 	return f
 }
 
-// profile: 0 zero, 1 typical, 2 max
+// profile: 0 zero, 1 typical, 2 max, 3 typical with a sourcePodName that is not valid UTF-8 (cannot be marshalled)
 // returns the record and the expected proto field values (as strings)
 func c19record(v6 bool, profile, schema, salt int) (entities.Record, map[string]string) {
 	want := map[string]string{}
@@ -115,9 +122,15 @@ func c19record(v6 bool, profile, schema, salt int) (entities.Record, map[string]
 		if err != nil {
 			panic(err)
 		}
-		pf := c19map[f.name]
+		pf, mapped := c19map[f.name]
+		bad := profile == 3
+		if bad {
+			profile = 1
+		}
 		var e entities.InfoElementWithValue
 		switch ie.DataType {
+		case entities.Unsigned32:
+			e = entities.NewUnsigned32InfoElement(ie, uint32(7000+salt))
 		case entities.Unsigned8:
 			v := []uint8{0, uint8(6 + salt), 255}[profile]
 			e, want[pf] = entities.NewUnsigned8InfoElement(ie, v), fmt.Sprint(v)
@@ -138,9 +151,18 @@ func c19record(v6 bool, profile, schema, salt int) (entities.Record, map[string]
 			e, want[pf] = entities.NewIPAddressInfoElement(ie, ip), ip.String()
 		case entities.String:
 			v := []string{"", fmt.Sprintf("%s-%d", f.name, salt), strings.Repeat("Z", 300)}[profile]
+			if bad && f.name == "sourcePodName" {
+				v = "pod-\xff\xfe"
+			}
 			e, want[pf] = entities.NewStringInfoElement(ie, v), v
 		default:
 			panic(fmt.Sprintf("c19record: %s type %d", f.name, ie.DataType))
+		}
+		if !mapped {
+			delete(want, "")
+		}
+		if bad {
+			profile = 3
 		}
 		els = append(els, e)
 	}
@@ -160,14 +182,16 @@ var c19alphabet = []c19elem{
 	{"Data(1: v6 max)", false, [][3]int{{1, 2, 2}}},
 	{"Data(2: v4 max, v4 zero)", false, [][3]int{{0, 2, 3}, {0, 0, 4}}},
 	{"Data(3: v6 typical, v4 typical, v6 zero)", false, [][3]int{{1, 1, 5}, {0, 1, 6}, {1, 0, 7}}},
+	{"Data(3: v4, v4 whose pod name is not UTF-8, v4)", false, [][3]int{{0, 1, 8}, {0, 3, 9}, {0, 1, 10}}},
 }
 
 type c19expect struct {
-	want map[string]string
-	time uint32
-	seq  uint32
-	dom  uint32
-	addr string
+	optional bool // the record cannot be marshalled: it may be left out (nothing else may)
+	want     map[string]string
+	time     uint32
+	seq      uint32
+	dom      uint32
+	addr     string
 }
 
 func c19stream(stream []int, schema int) ([]*entities.Message, []c19expect) {
@@ -200,7 +224,7 @@ func c19stream(stream []int, schema int) ([]*entities.Message, []c19expect) {
 			for _, r := range el.recs {
 				rec, want := c19record(r[0] == 1, r[1], schema, r[2])
 				set.AddRecordV2(rec.GetOrderedElementList(), 256)
-				exp = append(exp, c19expect{want, uint32(1600000000 + i), uint32(100 + i), uint32(7 + i), addr})
+				exp = append(exp, c19expect{r[1] == 3, want, uint32(1600000000 + i), uint32(100 + i), uint32(7 + i), addr})
 			}
 		}
 		m.AddSet(set)
@@ -283,6 +307,17 @@ func c19checkMode(stream []int, schema int, ack bool) *[2]string {
 		kp.PublishIPFIXMessages(ch)
 	}
 	fp.Close()
+	if len(fp.got) != len(exp) {
+		var must []c19expect
+		for _, e := range exp {
+			if !e.optional {
+				must = append(must, e)
+			}
+		}
+		if len(fp.got) == len(must) {
+			exp = must
+		}
+	}
 	if len(fp.got) != len(exp) {
 		return fail("message-count", "%d Kafka messages published, the stream carries %d data records", len(fp.got), len(exp))
 	}
@@ -422,7 +457,7 @@ done:
 	ev.Coverage = common.Coverage{
 		"states": streams, "transitions": records, "traces_validated_against_impl": streams, "samples": samples,
 		"evaluations": streams, "distinct_nontrivial": streams,
-		"rule":       fmt.Sprintf("every stream of length 1..%d over {template message, data message with 0 records, 1 (IPv4 typical), 1 (IPv6 maximal), 2 (IPv4 maximal then IPv4 zero), 3 (IPv6, IPv4, IPv6 zero)} x both shipped proto schemas through PublishIPFIXMessages with a capturing producer that keeps every message by reference until the end (as an unflushed async producer does); oracle: one message per data record in stream+record order, none for templates, configured topic, 4-byte big-endian length + exactly that many bytes, protobuf decodes to the record's values (table written from flow.proto) and the carrying message's export time / sequence / domain / exporter address, and the consumer-side decoder accepts it and recovers the same values; exporter addresses alternate between IPv4 and IPv6; in addition every stream of length <= 2 and three streams with a 600-record message are published with KafkaLogSuccesses through a producer whose input and acknowledgement channels hold 256 messages each. Streams are distinct by construction", maxLen),
+		"rule":       fmt.Sprintf("every stream of length 1..%d over {template message, data message with 0 records, 1 (IPv4 typical), 1 (IPv6 maximal), 2 (IPv4 maximal then IPv4 zero), 3 (IPv6, IPv4, IPv6 zero), 3 (the middle one with a pod name that is not UTF-8 and cannot be marshalled: it alone may be left out)}; every record also carries an element the schema has no field for (first in the IPv4 layout, last in the IPv6 one) x both shipped proto schemas through PublishIPFIXMessages with a capturing producer that keeps every message by reference until the end (as an unflushed async producer does); oracle: one message per data record in stream+record order, none for templates, configured topic, 4-byte big-endian length + exactly that many bytes, protobuf decodes to the record's values (table written from flow.proto) and the carrying message's export time / sequence / domain / exporter address, and the consumer-side decoder accepts it and recovers the same values; exporter addresses alternate between IPv4 and IPv6; in addition every stream of length <= 2 and three streams with a 600-record message are published with KafkaLogSuccesses through a producer whose input and acknowledgement channels hold 256 messages each. Streams are distinct by construction", maxLen),
 		"exhaustive": true,
 	}
 	ev.WallS = common.Since(rep.Start)
